@@ -44,6 +44,8 @@ class ValueGen:
         rng = self.rng
         if n is None:
             n = rng.randrange(minlen, maxlen + 1)
+            if rng.random() < 0.004:
+                n = rng.choice([253, 254, 256, 300, 65536, 70001])  # size thresholds
         if self.dialect == "wu":
             pool = SAFE + (HIGH_SAFE if rng.random() < 0.4 else "")
             if not encoded and rng.random() < 0.2:
